@@ -340,7 +340,7 @@ func scheduledTimeout(s *Snap, oid uint64) (int64, bool) {
 	return 0, false
 }
 
-func C12State(s *Snap) []engine.Finding {
+func C12State(s *Snap, g *lifeGhost) []engine.Finding {
 	var out []engine.Finding
 	for _, oid := range s.OrderIds {
 		o := s.Orders[oid]
@@ -366,8 +366,12 @@ func C12State(s *Snap) []engine.Finding {
 		// give-up bound: a check that finds no replacement after MaxTries intervals gives up; replacements are
 		// distinct from every provider already tried, so at most (#providers) checks can find one
 		bound := (saokeeper.MaxTries + uint64(len(s.Pledges)) + 2) * o.Timeout
-		if o.Timeout > 0 && sched && uint64(s.H-1) > o.CreatedAt+bound && uint64(s.H-1)+o.Timeout < o.CreatedAt+o.Duration {
-			out = append(out, fd("C12", "unresolved-beyond-give-up-bound", "", fmt.Sprintf("order %d created at %d with timeout %d is still unresolved at height %d (> created + (10 + %d providers + 2) intervals)", oid, o.CreatedAt, o.Timeout, s.H, len(s.Pledges))))
+		handed := o.CreatedAt // an order picked up later by MsgReady is "handed to providers" only then
+		if h, ok := g.Handed[oid]; ok {
+			handed = uint64(h)
+		}
+		if o.Timeout > 0 && sched && uint64(s.H-1) > handed+bound && uint64(s.H-1)+o.Timeout < o.CreatedAt+o.Duration {
+			out = append(out, fd("C12", "unresolved-beyond-give-up-bound", "", fmt.Sprintf("order %d handed to providers at %d with timeout %d is still unresolved at height %d (> hand-over + (10 + %d providers + 2) intervals)", oid, handed, o.Timeout, s.H, len(s.Pledges))))
 		}
 	}
 	return out
